@@ -6,10 +6,20 @@ answer   {"names": [[id, imported name]..],
           "at":    [{"vals":[[n,v]..] (watched rule-defined quantities), "rhs":[[species, d amount/dt]..]}..]}
 request  {"op":"c17","stems":[s..]}                       → {"norm":[normStem s ..]}
 request  {"op":"c17","free":[name,[taken..]]}             → {"name": freeName taken name}
+request  {"op":"c17","symrepr":<SymRepr>}                 → {"ok": <Module>} | {"err": "ValueError"}      genModule
+request  {"op":"c17","pmodel":<PModel>}                   → likewise for genModule (importSym pm), plus "sym": the SymRepr's
+                                                            values (which variables / parameters carry an initial assignment)
+  SymFn = [fnName, expr, [args]];  value = ["num", v] | ["fn", fnName, expr, [args]];  quantity = [key, value, unit]
+  derived = [key, SymFn];  reaction = [key, SymFn, [[var, coef]..]],  coef = ["num", v] | ["name", s] | ["fn", fnName, expr, [args]]
+  PModel: variables / parameters [[key, value, unit]..], derived / inits [[key, expr, [free]]..],
+          reactions [[key, expr, [free], [[var, ["float", v] | ["symbol", s] | ["other", expr, [free]]]..]]..]
+  Module: {"functions": [[name, expr, [args]]..], "calls": [["add_variable" | "add_parameter", key, ["num", v, kw, unit] | ["ia", fn, [args]]]
+          | ["add_derived", key, fn, [args]] | ["add_reaction", key, fn, [args], [[var, ["num", v] | ["name", s] | ["fn", fn, [args]]]..]]]}
 -/
 import Driver.Wire
 import Driver.H_c08
 import MxlVerif.Model.C17Doc
+import MxlVerif.Model.C17Codegen
 open Lean Mxl Mxl.Wire Mxl.C08 Mxl.C17
 namespace Driver.H_c17
 
@@ -94,7 +104,117 @@ def handleFree (j : Json) : Except String Json := do
       pure (Json.mkObj [("name", optJ' (freeName tk (← jStr name) (tk.length + 2)))])
   | _ => .error "bad free request"
 
+/-! ### naming / glue stage -/
+
+def jSymFn3 (a b c : Json) : Except String SymFn := do
+  pure { fnName := ← jStr a, expr := ← jNat b, args := ← jList jStr c }
+
+def jSymFn (j : Json) : Except String SymFn := do
+  match ← jArr j with
+  | [a, b, c] => jSymFn3 a b c
+  | _ => .error "bad SymFn"
+
+def jSymVal (j : Json) : Except String SymVal := do
+  match ← jArr j with
+  | [.str "num", v] => pure (.num (← jNat v))
+  | [.str "fn", a, b, c] => do pure (.fn (← jSymFn3 a b c))
+  | _ => .error "bad value"
+
+def jSymQty (j : Json) : Except String (String × SymQty) := do
+  match ← jArr j with
+  | [k, v, u] => pure (← jStr k, { value := ← jSymVal v, unit := ← jBool u })
+  | _ => .error "bad quantity"
+
+def jSymCoef (j : Json) : Except String SymCoef := do
+  match ← jArr j with
+  | [.str "num", v] => pure (.num (← jNat v))
+  | [.str "name", s] => pure (.name (← jStr s))
+  | [.str "fn", a, b, c] => do pure (.fn (← jSymFn3 a b c))
+  | _ => .error "bad coefficient"
+
+def jSymRepr (j : Json) : Except String SymRepr := do
+  pure { variables := ← jList jSymQty (← field j "variables")
+         parameters := ← jList jSymQty (← field j "parameters")
+         derived := ← jList (jPair jStr jSymFn) (← field j "derived")
+         reactions := ← jList (fun r => do
+            match ← jArr r with
+            | [k, f, sto] => pure (← jStr k, ({ fn := ← jSymFn f, stoich := ← jList (jPair jStr jSymCoef) sto } : SymRxn))
+            | _ => .error "bad reaction") (← field j "reactions") }
+
+def jPExpr2 (e f : Json) : Except String PExpr := do pure { expr := ← jNat e, free := ← jList jStr f }
+
+def jPCoef (j : Json) : Except String PCoef := do
+  match ← jArr j with
+  | [.str "float", v] => pure (.float (← jNat v))
+  | [.str "symbol", s] => pure (.symbol (← jStr s))
+  | [.str "other", e, f] => do pure (.other (← jPExpr2 e f))
+  | _ => .error "bad pysbml coefficient"
+
+def jPQty (j : Json) : Except String (String × ExprId × Bool) := do
+  match ← jArr j with
+  | [k, v, u] => pure (← jStr k, ← jNat v, ← jBool u)
+  | _ => .error "bad pysbml quantity"
+
+def jPKeyed (j : Json) : Except String (String × PExpr) := do
+  match ← jArr j with
+  | [k, e, f] => pure (← jStr k, ← jPExpr2 e f)
+  | _ => .error "bad pysbml expression"
+
+def jPModel (j : Json) : Except String PModel := do
+  pure { variables := ← jList jPQty (← field j "variables")
+         parameters := ← jList jPQty (← field j "parameters")
+         derived := ← jList jPKeyed (← field j "derived")
+         reactions := ← jList (fun r => do
+            match ← jArr r with
+            | [k, e, f, sto] => pure (← jStr k, ({ expr := ← jPExpr2 e f, stoich := ← jList (jPair jStr jPCoef) sto } : PRxn))
+            | _ => .error "bad pysbml reaction") (← field j "reactions")
+         inits := ← jList jPKeyed (← field j "inits") }
+
+def natJ (n : Nat) : Json := .num (.fromNat n)
+
+def evalJ : EVal → Json
+  | .num v kw u => .arr #[.str "num", natJ v, .str kw, .bool u]
+  | .ia fn args => .arr #[.str "ia", .str fn, strsJ args]
+
+def ecoefJ : ECoef → Json
+  | .num v => .arr #[.str "num", natJ v]
+  | .name s => .arr #[.str "name", .str s]
+  | .fn fn args => .arr #[.str "fn", .str fn, strsJ args]
+
+def callJ : Call → Json
+  | .addVariable k v => .arr #[.str "add_variable", .str k, evalJ v]
+  | .addParameter k v => .arr #[.str "add_parameter", .str k, evalJ v]
+  | .addDerived k fn args => .arr #[.str "add_derived", .str k, .str fn, strsJ args]
+  | .addReaction k fn args sto =>
+    .arr #[.str "add_reaction", .str k, .str fn, strsJ args, .arr (sto.map fun sv => Json.arr #[.str sv.1, ecoefJ sv.2]).toArray]
+
+def moduleJ : Except String Mxl.C17.Module → Json
+  | .error e => Json.mkObj [("err", .str e)]
+  | .ok m => Json.mkObj [("ok", Json.mkObj [
+      ("functions", .arr (m.functions.map fun kv => Json.arr #[.str kv.1, natJ kv.2.1, strsJ kv.2.2]).toArray),
+      ("calls", .arr (m.calls.map callJ).toArray)])]
+
+def symValJ : SymVal → Json
+  | .num v => .arr #[.str "num", natJ v]
+  | .fn f => .arr #[.str "fn", .str f.fnName, natJ f.expr, strsJ f.args]
+
+def handleSym (j : Json) : Except String Json := do
+  pure (moduleJ (genModule (← jSymRepr j)))
+
+def handlePModel (j : Json) : Except String Json := do
+  let s := importSym (← jPModel j)
+  let qs := fun (l : List (String × SymQty)) => Json.arr (l.map fun kv => Json.arr #[.str kv.1, symValJ kv.2.value]).toArray
+  match moduleJ (genModule s) with
+  | .obj kvs => pure (Json.obj (kvs.insert "sym" (Json.mkObj [("variables", qs s.variables), ("parameters", qs s.parameters)])))
+  | other => pure other
+
 def handle (j : Json) : Except String Json := do
+  match j.getObjVal? "symrepr" with
+  | .ok sj => handleSym sj
+  | .error _ =>
+  match j.getObjVal? "pmodel" with
+  | .ok pj => handlePModel pj
+  | .error _ =>
   match j.getObjVal? "stems" with
   | .ok sj => do
       let stems ← jList jStr sj
